@@ -332,6 +332,11 @@ func (d *Discharger) runOne(ctx context.Context, cfg SolverCfg, file string) (st
 	first := ""
 	for _, l := range strings.Split(string(out), "\n") {
 		l = strings.TrimSpace(l)
+		if strings.HasPrefix(l, "(error") && !strings.Contains(l, "model is not available") {
+			// a script the solver could not read decides nothing (neither proved nor refuted)
+			first = "error"
+			break
+		}
 		if l == "sat" || l == "unsat" || l == "unknown" || l == "timeout" {
 			first = l
 			break
